@@ -1588,4 +1588,94 @@ mod proofs {
     pub fn c06_import_result_list_of_strings_len2() {
         body_import_result(false, true, 2);
     }
+
+    // ---- thorough tier: three elements each way (the ledger has seven slots: list buffer + three element buffers + slack)
+    #[kani::proof]
+    #[kani::unwind(5)]
+    #[kani::stub(alloc::alloc::alloc, alloc_stub)]
+    #[kani::stub(alloc::alloc::dealloc, dealloc_stub)]
+    #[kani::stub(alloc::alloc::realloc, realloc_stub)]
+    #[kani::stub(alloc::alloc::dealloc_nonnull, dealloc_nonnull_stub)]
+    #[kani::stub(alloc::alloc::realloc_nonnull, realloc_nonnull_stub)]
+    #[kani::stub(alloc::string::String::from_utf8, from_utf8_stub)]
+    pub fn c05_list_of_strings_result_len3() {
+        body_list_of_strings(true, false, 0, 3);
+    }
+    #[kani::proof]
+    #[kani::unwind(5)]
+    #[kani::stub(alloc::alloc::alloc, alloc_stub)]
+    #[kani::stub(alloc::alloc::dealloc, dealloc_stub)]
+    #[kani::stub(alloc::alloc::realloc, realloc_stub)]
+    #[kani::stub(alloc::alloc::dealloc_nonnull, dealloc_nonnull_stub)]
+    #[kani::stub(alloc::alloc::realloc_nonnull, realloc_nonnull_stub)]
+    #[kani::stub(alloc::string::String::from_utf8, from_utf8_stub)]
+    pub fn c05_list_of_strings_param_len3() {
+        body_list_of_strings(true, false, 3, 0);
+    }
+    #[kani::proof]
+    #[kani::unwind(5)]
+    #[kani::stub(alloc::alloc::alloc, alloc_stub)]
+    #[kani::stub(alloc::alloc::dealloc, dealloc_stub)]
+    #[kani::stub(alloc::alloc::realloc, realloc_stub)]
+    #[kani::stub(alloc::alloc::dealloc_nonnull, dealloc_nonnull_stub)]
+    #[kani::stub(alloc::alloc::realloc_nonnull, realloc_nonnull_stub)]
+    #[kani::stub(alloc::string::String::from_utf8, from_utf8_stub)]
+    pub fn c05_list_of_mixed_records_result_len3() {
+        body_entries(true, false, 0, 3);
+    }
+    #[kani::proof]
+    #[kani::unwind(5)]
+    #[kani::stub(alloc::alloc::alloc, alloc_stub)]
+    #[kani::stub(alloc::alloc::dealloc, dealloc_stub)]
+    #[kani::stub(alloc::alloc::realloc, realloc_stub)]
+    #[kani::stub(alloc::alloc::dealloc_nonnull, dealloc_nonnull_stub)]
+    #[kani::stub(alloc::alloc::realloc_nonnull, realloc_nonnull_stub)]
+    #[kani::stub(alloc::string::String::from_utf8, from_utf8_stub)]
+    pub fn c05_list_of_mixed_records_param_len3() {
+        body_entries(true, false, 3, 0);
+    }
+    #[kani::proof]
+    #[kani::unwind(5)]
+    #[kani::stub(alloc::alloc::alloc, alloc_stub)]
+    #[kani::stub(alloc::alloc::dealloc, dealloc_stub)]
+    #[kani::stub(alloc::alloc::realloc, realloc_stub)]
+    #[kani::stub(alloc::alloc::dealloc_nonnull, dealloc_nonnull_stub)]
+    #[kani::stub(alloc::alloc::realloc_nonnull, realloc_nonnull_stub)]
+    #[kani::stub(alloc::string::String::from_utf8, from_utf8_stub)]
+    pub fn c06_list_of_strings_result_len3() {
+        body_list_of_strings(false, true, 0, 3);
+    }
+    #[kani::proof]
+    #[kani::unwind(5)]
+    #[kani::stub(alloc::alloc::alloc, alloc_stub)]
+    #[kani::stub(alloc::alloc::dealloc, dealloc_stub)]
+    #[kani::stub(alloc::alloc::realloc, realloc_stub)]
+    #[kani::stub(alloc::alloc::dealloc_nonnull, dealloc_nonnull_stub)]
+    #[kani::stub(alloc::alloc::realloc_nonnull, realloc_nonnull_stub)]
+    #[kani::stub(alloc::string::String::from_utf8, from_utf8_stub)]
+    pub fn c06_list_of_strings_param_len3() {
+        body_list_of_strings(false, true, 3, 0);
+    }
+    #[kani::proof]
+    #[kani::unwind(5)]
+    #[kani::stub(alloc::alloc::alloc, alloc_stub)]
+    #[kani::stub(alloc::alloc::dealloc, dealloc_stub)]
+    #[kani::stub(alloc::alloc::realloc, realloc_stub)]
+    #[kani::stub(alloc::alloc::dealloc_nonnull, dealloc_nonnull_stub)]
+    #[kani::stub(alloc::alloc::realloc_nonnull, realloc_nonnull_stub)]
+    #[kani::stub(alloc::string::String::from_utf8, from_utf8_stub)]
+    pub fn c06_list_of_mixed_records_result_len3() {
+        body_entries(false, true, 0, 3);
+    }
+    #[kani::proof]
+    #[kani::unwind(5)]
+    #[kani::stub(alloc::alloc::alloc, alloc_stub)]
+    #[kani::stub(alloc::alloc::dealloc, dealloc_stub)]
+    #[kani::stub(alloc::alloc::realloc, realloc_stub)]
+    #[kani::stub(alloc::alloc::dealloc_nonnull, dealloc_nonnull_stub)]
+    #[kani::stub(alloc::alloc::realloc_nonnull, realloc_nonnull_stub)]
+    #[kani::stub(alloc::string::String::from_utf8, from_utf8_stub)]
+    pub fn c06_list_of_mixed_records_param_len3() {
+        body_entries(false, true, 3, 0);
+    }
 }
